@@ -1,26 +1,26 @@
 (* C03 - The verifier never returns what the issuer did not sign, whatever the holder sends. *)
 From Coq Require Import List String Ascii Bool Arith.
-Require Import SDJ.Json SDJ.Model2 SDJ.Restore2 SDJ.ATree SDJ.T2c SDJ.T2h SDJ.T2m SDJ.T2o.
+Require Import SDJ.Json SDJ.Wire SDJ.Model2 SDJ.Restore2 SDJ.ATree SDJ.T2c SDJ.T2h SDJ.T2m SDJ.T2o SDJ.T2q SDJ.Out SDJ.Split SDJ.Verify SDJ.C03Proofs.
 Local Open Scope string_scope.
 
 (* For every conformant token (annotated tree t: any shape, any marking, decoys anywhere, nesting up to the
-   depth limit) and every duplicate-free list L of presented strings - own, foreign, altered, malformed, in
-   any order - none of which hashes to a decoy: the complete restore_disclosures of the model (decode all,
+   depth limit) and EVERY list L of presented strings - own, foreign, altered, malformed, in any order, with
+   any repetitions - none of which hashes to a decoy: the complete restore_disclosures of the model (decode all,
    passes until no progress, duplicate and structure checks) either rejects or returns view (own L) t, the
    tree in which exactly the hidden nodes whose own disclosure and all enclosing disclosures are in L are
    opened. Order independence is immediate: own L depends on the set only.
-   Remaining gap to the property text: lists with repetitions (the correspondence run covers them: a repeated
-   member disclosure is rejected, a repeated array-element disclosure is invisible the second time). *)
+   Repetitions: a repeated member disclosure makes the call fail (T2q.restore1_opened_err), a repeated
+   array-element disclosure is invisible the second time; either way nothing is multiplied. *)
 Theorem C03_sound :
   forall (H : string -> string) (enc : list json -> string) (dec : string -> dec_result) (show_nat : nat -> string),
     (forall x y, H x = H y -> x = y) ->
     (forall ps, dec (enc ps) = DJson (JArr ps)) ->
     forall t : atree, wf H enc t -> NoDup (alldigs H enc t) -> NoDup (hdigs H enc t) -> aheight t <= 129 ->
-    forall L : list string, NoDup L ->
+    forall L : list string,
       (forall s, In s L -> In (H s) (alldigs H enc t) -> In (H s) (hdigs H enc t)) ->
       restore_disclosures H dec show_nat (blind H enc t) L = Err \/
       (exists ps, restore_disclosures H dec show_nat (blind H enc t) L = Ok (view H enc (ownS H L) t, ps)).
-Proof. exact restore_full_spec. Qed.
+Proof. exact restore_any_spec. Qed.
 Print Assumptions C03_sound.
 
 (* completeness: when every presented string decodes, the presentation is accepted *)
@@ -42,3 +42,38 @@ Theorem C03_strip_is_projection :
     wf H enc t -> strip (view H enc R t) = proj H enc R t.
 Proof. exact strip_view. Qed.
 Print Assumptions C03_strip_is_projection.
+
+(* The same at the entry point, for ANY presentation string: split it as the verifier does; if its JWT part
+   decodes (under the verifier's key and policy: oracle o_jwt) to the payload of a conformant token t, then
+   whatever else the string contains - any disclosure list, a KB-JWT or none - Verifier::verify either does
+   not succeed or returns the issuer's header and the projection of t determined by the set of presented
+   strings, minus _sd_alg. Nothing the issuer did not sign, nothing whose disclosure chain is incomplete. *)
+Theorem C03_verifier_entry_sound :
+  forall (O : oracles) (H : string -> string) (enc : list json -> string),
+    (forall x y, H x = H y -> x = y) ->
+    (forall ps, o_dec O (enc ps) = DJson (JArr ps)) ->
+    forall t : atree, wf H enc t -> NoDup (alldigs H enc t) -> NoDup (hdigs H enc t) -> aheight t <= 129 ->
+    forall token kbpol jwt L kb hdr0 hdr claims' a alg,
+      sd_jwt_parts token = (jwt, L, kb) -> o_jwt O jwt = Val (hdr0, blind H enc t) ->
+      jget "_sd_alg" (blind H enc t) = JStr a -> parse_halg a = Some alg -> o_hash O alg = H ->
+      (forall s, In s L -> In (H s) (alldigs H enc t) -> In (H s) (hdigs H enc t)) ->
+      verifier_verify O token kbpol = Val (hdr, claims') ->
+      hdr = hdr0 /\ claims' = drop_alg (proj H enc (ownS H L) t).
+Proof. exact verifier_verify_sound. Qed.
+Print Assumptions C03_verifier_entry_sound.
+
+(* acceptance of duplicate-free lists of decodable strings on unbound tokens, in any order *)
+Theorem C03_verifier_entry_complete :
+  forall (O : oracles) (H : string -> string) (enc : list json -> string),
+    (forall x y, H x = H y -> x = y) ->
+    (forall ps, o_dec O (enc ps) = DJson (JArr ps)) ->
+    forall t : atree, wf H enc t -> NoDup (alldigs H enc t) -> NoDup (hdigs H enc t) -> aheight t <= 129 ->
+    forall token kbpol jwt L ds hdr0 a alg,
+      sd_jwt_parts token = (jwt, L, None) -> o_jwt O jwt = Val (hdr0, blind H enc t) ->
+      jget "_sd_alg" (blind H enc t) = JStr a -> parse_halg a = Some alg -> o_hash O alg = H ->
+      jget "cnf" (blind H enc t) = JNull ->
+      NoDup L -> (forall s, In s L -> In (H s) (alldigs H enc t) -> In (H s) (hdigs H enc t)) ->
+      decode_all H (o_dec O) L = Ok ds ->
+      verifier_verify O token kbpol = Val (hdr0, drop_alg (proj H enc (ownS H L) t)).
+Proof. exact verifier_verify_complete. Qed.
+Print Assumptions C03_verifier_entry_complete.
